@@ -303,3 +303,15 @@ Definition augment (src : bytes) (toks : list atok) (eline : nat) (scan_errors :
       | Some (out, augs', adjs) => AugOk out augs' adjs
       end
   end.
+
+(* ---- what rewrite needs of the augmentations, in the order find produced them ----
+   each within the source; two of them are disjoint, and of two that start at the same
+   offset the earlier one is empty (fake package / fake func before a leading "...") *)
+Definition aug_wfb (n : nat) (a : aug) : bool := Nat.leb (aug_start a) (aug_end a) && Nat.leb (aug_end a) n.
+Definition compatb (a b : aug) : bool :=          (* a was found before b *)
+  Nat.leb (aug_end a) (aug_start b) || (Nat.leb (aug_end b) (aug_start a) && Nat.ltb (aug_start b) (aug_start a)).
+Fixpoint augs_okb (n : nat) (l : list aug) : bool :=
+  match l with
+  | [] => true
+  | a :: l' => aug_wfb n a && forallb (compatb a) l' && augs_okb n l'
+  end.
